@@ -15,6 +15,7 @@ import SradModel.Drv.Eon
 import SradModel.Drv.Metric
 import SradModel.Drv.Birth
 import SradModel.Drv.Cmd
+import SradModel.Drv.Wire
 
 open Srad Srad.Drv Srad.BirthDrv Srad.Drv.CmdD
 
@@ -40,6 +41,7 @@ def step (st : DState) (line : String) : DState × String :=
   | "admit" :: rest => (st, stepAdmit rest)
   | "topic" :: rest => (st, stepTopic rest)
   | "metric" :: rest => (st, stepMetric rest)
+  | "wire" :: rest => (st, stepWire rest)
   | "birth" :: rest =>
     let (b, o) := stepBirth st.birth rest
     ({ st with birth := b }, o)
